@@ -63,8 +63,8 @@ DeepCall == { <<At(A2), Minus(A1, K(1))>> }
 DeepLeaves ==
   { Ret(At(A1)), Ret(At(K(0))) }
   \cup { TailCall(as) : as \in DeepTail }
-  \cup { Discard(as, x) : as \in DeepCall, x \in {At(K(1))} \cup (IF Small THEN {} ELSE {At(A1)}) }
-  \cup { Bind(as, x) : as \in DeepCall, x \in {At(R)} \cup (IF Small THEN {} ELSE {Plus(R, K(1))}) }
+  \cup { Discard(as, At(K(1))) : as \in DeepCall }
+  \cup { Bind(as, IF Small THEN At(R) ELSE Plus(R, K(1))) : as \in DeepCall }
 
 (* nest: f(a, n) calls g(x, y) *)
 NestConds ==
@@ -79,8 +79,7 @@ NestG ==
   { Fun(2, pg, If(Cond("<=", At(A2), 0), Ret(At(A1)), TailCall(<<Plus(A1, A2), Minus(A2, K(1))>>))) : pg \in {0, 2} }
   \cup { Fun(2, 0, If(Cond("!=", At(A2), 0), TailCall(<<At(A2), Minus(A1, K(1))>>), Ret(Plus(A1, K(1))))) }
   \cup (IF Small THEN {} ELSE
-        { Fun(2, 0, If(Cond("<", At(A2), 1), Ret(At(K(1))), Bind(<<At(A1), Minus(A2, K(1))>>, Plus(R, A1)))),
-          Fun(2, 1, If(Cond("==", At(A1), 1), TailCall(<<At(A2), At(A1)>>),
+        { Fun(2, 1, If(Cond("==", At(A1), 1), TailCall(<<At(A2), At(A1)>>),
                        If(Cond("<=", At(A2), 0), Ret(At(A1)), TailCall(<<Minus(A1, K(1)), Minus(A2, K(1))>>)))) })
 
 (* unit: a b n, no value: what the function prints is all there is; every self call that ends a
@@ -125,7 +124,9 @@ Program == [f |-> MkF(Body), g |-> gf]
 Results(p) ==
   LET pl == Lowered(p)
       pm == Rewritten(p)
-  IN [i \in 1..Len(Args) |-> [ref |-> Ref(p, Args[i]), low |-> RunIR(pl, Args[i]), rw |-> RunIR(pm, Args[i])]]
+      pb == BackEnd(p)
+  IN [i \in 1..Len(Args) |-> [ref |-> Ref(p, Args[i]), low |-> RunIR(pl, Args[i]), rw |-> RunIR(pm, Args[i]),
+                               be |-> RunIR(pb, Args[i])]]
 \* a body without a Ret leaf never returns
 Interesting(b) == HasBase(b) /\ (Nest => CallsG(b))
 
@@ -142,6 +143,9 @@ Spec == Init /\ [][Next]_vars
 (* The theorem *)
 \* the rewritten loop returns and prints exactly what the recursion returns and prints
 RewriteSound == phase = 2 => \A i \in 1..Len(Args) : res[i].ref.ok => res[i].rw = res[i].ref
+\* ... also as the back ends run the loop: loop variables assigned one after another, after the loop values
+\* that read an earlier loop variable have been saved (lir_lowering.rs)
+BackEndSound == phase = 2 => \A i \in 1..Len(Args) : res[i].ref.ok => res[i].be = res[i].ref
 \* a body that is not recognised is handed back unchanged
 UnrecognisedLeftAlone ==
   phase = 2 => LET F == LowerFun("f", Program.f)
